@@ -76,17 +76,26 @@ def Sound (r : Val ℝ) (F : ℝ → ℝ) : Prop :=
   | .num v => ∀ u, F u = v
   | .atom v d => Rep v d F 0
 
-/-- domain guards of the binary rules, on the operands the walk has computed -/
+/-- domain guards of the binary steps, on the operands the walk has computed. Two kinds of conjunct: what the calculus needs (non-zero
+    divisor, positive base of `atom ** atom`, `base ≠ 0 ∨ 1 ≤ exponent`) and what keeps the real-number meaning of the model equal to
+    numpy's (`x / 0` is `0` in `ℝ` but `inf` in numpy; `Real.rpow` of a negative base with a non-integer exponent is a number, numpy's is
+    NaN): without the second kind the theorems would hold at points where `eval` is not what the code computes -/
 def binGuard : BinOp → Val ℝ → Val ℝ → Prop
   | .div, .atom _ _, .atom ov _ => ov ≠ 0
   | .div, .num _, .atom sv _ => sv ≠ 0
+  | .div, .atom _ _, .num o => o ≠ 0
+  | .div, .num _, .num o => o ≠ 0
   | .pow, .atom sv _, .atom _ _ => 0 < sv
-  | .pow, .atom sv _, .num o => sv ≠ 0 ∨ 1 ≤ o
+  | .pow, .atom sv _, .num o => (0 < sv ∨ ∃ n : ℤ, o = n) ∧ (sv ≠ 0 ∨ 1 ≤ o)
+  | .pow, .num a, .num o => 0 < a ∨ ((∃ n : ℤ, o = n) ∧ (a ≠ 0 ∨ 0 ≤ o))
   | _, _, _ => True
 
+/-- positive argument of `log`, positive (non-negative for a plain number) argument of `sqrt`: numpy's domain, and differentiability -/
 def fn1Guard : Fn1 → Val ℝ → Prop
   | .log, .atom sv _ => 0 < sv
+  | .log, .num a => 0 < a
   | .sqrt, .atom sv _ => 0 < sv
+  | .sqrt, .num a => 0 ≤ a
   | _, _ => True
 
 /-- away from the kink -/
@@ -156,7 +165,7 @@ theorem binop_sound {op : BinOp} {x y r : Val ℝ} {F G : ℝ → ℝ}
        | exact truediv_an_sound hx hy
        | exact rtruediv_sound hy hx hg
        | exact pow_aa_sound hx hy hg
-       | exact pow_an_sound hx hy hg)
+       | exact pow_an_sound hx hy hg.2)
 
 theorem unop_sound {b : Bool} {x r : Val ℝ} {F : ℝ → ℝ} (h : unop b x = .ok r) (hx : Sound x F) :
     Sound r (fun u => if b then -(F u) else F u) := by
@@ -553,6 +562,109 @@ theorem differentiated_correctly_or_rejected (base : Nat → Int → ℝ) (seed 
   | ok r =>
     obtain ⟨v, d, hr, hv, hd⟩ := adEquation_sound base seed logly ext e hS hM hadm r h
     exact Or.inr ⟨v, d, by rw [hr], hv, hd⟩
+
+/-! ### the dispatch is total over the generated tables: a proved rule, or no method at all -/
+
+/-- **rejects exactly what the code rejects** (binary operators): of the 5 × 4 operator shapes the only one with no `Atom` method —
+    hence `TypeError` — is `number ** Atom` (no `__rpow__`); every other shape reaches a generated rule -/
+theorem binop_rejected_iff (op : BinOp) (x y : Val ℝ) :
+    binop op x y = .error .typeError ↔ (op = .pow ∧ (∃ o, x = .num o) ∧ ∃ v d, y = .atom v d) := by
+  cases op <;> cases x <;> cases y <;>
+    simp [binop, BinOp.dunder, BinOp.rdunder, has_add, has_sub, has_mul, has_truediv, has_pow, has_radd, has_rsub,
+      has_rmul, has_rtruediv, no_rpow, res_add, res_sub, res_mul, res_truediv, res_pow, res_radd, res_rmul, res_rsub,
+      res_rtruediv, applyAA_add, applyAA_sub, applyAA_mul, applyAA_truediv, applyAA_pow, applyAN_add, applyAN_sub,
+      applyAN_mul, applyAN_truediv, applyAN_pow, applyAN_rsub, applyAN_rtruediv]
+
+/-- no operator shape ends in "a method exists but the model has no proved rule": with `binop_sound`, **every shape either reaches a rule
+    whose derivative is proved or has no method at all** (an alias such as `__rpow__ = __pow__` added to `Atom` changes the generated
+    tables and breaks `binop_sound`, `no_rpow` and this theorem) -/
+theorem binop_never_unmodelled (op : BinOp) (x y : Val ℝ) : binop op x y ≠ .error .unmodelled := by
+  cases op <;> cases x <;> cases y <;>
+    simp [binop, BinOp.dunder, BinOp.rdunder, has_add, has_sub, has_mul, has_truediv, has_pow, has_radd, has_rsub,
+      has_rmul, has_rtruediv, no_rpow, res_add, res_sub, res_mul, res_truediv, res_pow, res_radd, res_rmul, res_rsub,
+      res_rtruediv, applyAA_add, applyAA_sub, applyAA_mul, applyAA_truediv, applyAA_pow, applyAN_add, applyAN_sub,
+      applyAN_mul, applyAN_truediv, applyAN_pow, applyAN_rsub, applyAN_rtruediv]
+
+theorem unop_never_fails (b : Bool) (x : Val ℝ) : ∃ r, unop b x = .ok r := by
+  cases x <;> cases b <;> simp [unop, has_neg, has_pos]
+
+/-- one-argument functions: rejected iff the argument is an Atom and the function is `abs`, `normal_cdf` or `normal_pdf` -/
+theorem call1_rejected_iff (ext : Fn1 → ℝ → ℝ) (f : Fn1) (x : Val ℝ) :
+    call1 ext f x = .error .typeError ↔ ((∃ v d, x = .atom v d) ∧ (f = .abs ∨ f = .normal_cdf ∨ f = .normal_pdf)) := by
+  cases x <;> cases f <;>
+    simp [call1, Fn1.name, has_log, has_exp, has_sqrt, has_logistic, no_abs, no_normal_cdf, no_normal_pdf]
+
+theorem call1_never_unmodelled (ext : Fn1 → ℝ → ℝ) (f : Fn1) (x : Val ℝ) : call1 ext f x ≠ .error .unmodelled := by
+  cases x <;> cases f <;>
+    simp [call1, Fn1.name, has_log, has_exp, has_sqrt, has_logistic, no_abs, no_normal_cdf, no_normal_pdf]
+
+/-- two-argument functions: rejected iff (number, Atom) — the dispatch looks at the first argument only — or `minimum` of an Atom -/
+theorem call2_rejected_iff (f : Fn2) (x y : Val ℝ) :
+    call2 f x y = .error .typeError ↔
+      (((∃ a, x = .num a) ∧ ∃ v d, y = .atom v d) ∨ ((∃ v d, x = .atom v d) ∧ f = .minimum)) := by
+  cases x <;> cases y <;> cases f <;> simp [call2, Fn2.name, has_maximum, no_minimum]
+
+theorem call2_never_unmodelled (f : Fn2) (x y : Val ℝ) : call2 f x y ≠ .error .unmodelled := by
+  cases x <;> cases y <;> cases f <;> simp [call2, Fn2.name, has_maximum, no_minimum]
+
+/-- **the rejection clause for whole trees**: the walk never fails for any other reason than a `TypeError` of some step — there is no
+    tree on which a method is reached that the model (and hence the soundness proof) does not cover -/
+theorem adEval_error_is_typeError (c : Ctx ℝ) (e : Expr ℝ) (err : Err) (h : adEval c e = .error err) : err = .typeError := by
+  induction e generalizing err with
+  | const k => simp [adEval] at h
+  | tok q s => simp [adEval] at h
+  | neg e ih =>
+    simp only [adEval] at h
+    cases hx : adEval c e with
+    | error e' => rw [hx] at h; simp [bind, Except.bind] at h; rw [← h]; exact ih e' hx
+    | ok x =>
+      rw [hx] at h
+      obtain ⟨r, hr⟩ := unop_never_fails true x
+      simp [bind, Except.bind, hr] at h
+  | pos e ih =>
+    simp only [adEval] at h
+    cases hx : adEval c e with
+    | error e' => rw [hx] at h; simp [bind, Except.bind] at h; rw [← h]; exact ih e' hx
+    | ok x =>
+      rw [hx] at h
+      obtain ⟨r, hr⟩ := unop_never_fails false x
+      simp [bind, Except.bind, hr] at h
+  | bin op a b iha ihb =>
+    simp only [adEval] at h
+    cases hx : adEval c a with
+    | error e' => rw [hx] at h; simp [bind, Except.bind] at h; rw [← h]; exact iha e' hx
+    | ok x =>
+      cases hy : adEval c b with
+      | error e' => rw [hx, hy] at h; simp [bind, Except.bind] at h; rw [← h]; exact ihb e' hy
+      | ok y =>
+        rw [hx, hy] at h
+        simp only [bind, Except.bind] at h
+        cases err with
+        | typeError => rfl
+        | unmodelled => exact absurd h (binop_never_unmodelled op x y)
+  | call1 f a iha =>
+    simp only [adEval] at h
+    cases hx : adEval c a with
+    | error e' => rw [hx] at h; simp [bind, Except.bind] at h; rw [← h]; exact iha e' hx
+    | ok x =>
+      rw [hx] at h
+      simp only [bind, Except.bind] at h
+      cases err with
+      | typeError => rfl
+      | unmodelled => exact absurd h (call1_never_unmodelled c.ext f x)
+  | call2 f a b iha ihb =>
+    simp only [adEval] at h
+    cases hx : adEval c a with
+    | error e' => rw [hx] at h; simp [bind, Except.bind] at h; rw [← h]; exact iha e' hx
+    | ok x =>
+      cases hy : adEval c b with
+      | error e' => rw [hx, hy] at h; simp [bind, Except.bind] at h; rw [← h]; exact ihb e' hy
+      | ok y =>
+        rw [hx, hy] at h
+        simp only [bind, Except.bind] at h
+        cases err with
+        | typeError => rfl
+        | unmodelled => exact absurd h (call2_never_unmodelled f x y)
 
 /-! ### placement -/
 
